@@ -82,11 +82,23 @@ TmplVerdict(r) ==
   IF r.fail # "" THEN "fails"
   ELSE IF r.out = TmplAll(r.parts, r.ds, 1) THEN "ok" ELSE "template"
 
+\* two real outputs for the same Error: what PrettyPrint draws and what the template fields carry.
+\* An indicator drawn by one is carried by the other, at the same place and with the same length, below the
+\* same line; EndColumn is the end of the indicator, or the column when there is none.
+PPAgreesTF(r) ==
+  /\ (r.pp.k = "snip" /\ r.pp.ind) =>
+        r.tf.k = "snip" /\ r.tf.ind /\ r.tf.shown = r.pp.shown /\ r.tf.caret = r.pp.caret /\ r.tf.ul = r.pp.ul
+  /\ (r.tf.k = "snip" /\ r.tf.ind) =>
+        r.pp.k = "snip" /\ r.pp.ind /\ r.pp.shown = r.tf.shown /\ r.pp.caret = r.tf.caret /\ r.pp.ul = r.tf.ul
+  /\ r.tf.ind => r.tf.end = r.tf.caret + 1 + r.tf.ul
+  /\ ~r.tf.ind => r.tf.end = r.col
+
 SnipVerdict(r) ==
   IF r.pp.k = "panic" \/ r.tf.k = "panic" THEN "panic"
   ELSE IF r.pp.k \notin {"none", "snip"} \/ r.tf.k \notin {"none", "snip"} THEN "malformed"
   ELSE IF ~R!SnipOK(r.src, r.line, r.col, r.pp) THEN "pp-" \o SnipClause(r, r.pp)
   ELSE IF ~R!SnipOK(r.src, r.line, r.col, r.tf) THEN "fields-" \o SnipClause(r, r.tf)
+  ELSE IF ~PPAgreesTF(r) THEN "pp-vs-fields"
   ELSE IF r.fmt # "ok" THEN "format"
   ELSE "ok"
 
